@@ -121,12 +121,31 @@ func runMembership(c *Ctx, plan any) {
 			tried[id][op.Group] = true
 		}
 	}
+	type pendingEv struct {
+		id, kind string
+		stamp    int64
+	}
+	outside := map[*simClient][]pendingEv{} // user events received between joined/leave and the next joined/join
 	w.onClientMsg = func(sc *simClient, rm recvMsg) {
+		if rm.Type == "joined" && rm.Kind == "join" {
+			g, _ := rm.M["group"].(string)
+			for _, e := range outside[sc] {
+				if tried[e.id] != nil && tried[e.id][g] {
+					c.Violation("C14.stale-event-after-rejoin", "client %s left, re-joined the same group %s, and in between was sent user/%s about %s: an event queued before it left, which the reference client applies to its fresh list (ghost or stale entry)", sc.id, g, e.kind, e.id)
+				} else {
+					c.Violation("C14.cross-group-event", "client %s was sent user/%s about %s while moving to group %s, which %s never tried to join", sc.id, e.kind, e.id, g, e.id)
+				}
+			}
+			delete(outside, sc)
+		}
 		if rm.Type != "user" {
 			return
 		}
 		id, _ := rm.M["id"].(string)
 		c.Count("events.user_"+rm.Kind, 1)
+		if sc.group == "" && (sc.lastJoined() == "leave" || sc.lastJoined() == "fail") {
+			outside[sc] = append(outside[sc], pendingEv{id, rm.Kind, rm.Stamp})
+		}
 		if sc.group != "" && tried[id] != nil && !tried[id][sc.group] {
 			c.Violation("C14.cross-group-event", "client %s, member of %s, received user/%s about %s, which never tried to join that group", sc.id, sc.group, rm.Kind, id)
 		}
@@ -138,6 +157,12 @@ func runMembership(c *Ctx, plan any) {
 	for _, sc := range w.clients {
 		if sc.conn != nil {
 			sc.conn.Stall(false)
+		}
+	}
+	for sc, evs := range outside {
+		if len(evs) > 0 && sc.alive() {
+			// decided below, after quiescence, if no join follows
+			_ = evs
 		}
 	}
 	if !w.settle(5 * time.Minute) {
